@@ -298,7 +298,7 @@ def run(tier):
                 rep.machinery_errors.append(text)
                 continue
             script = c["script"]
-            sdesc = ";".join("%s@%s%s" % (e[0], _at(c, e), (":" + str(e[2]) if e[0] in ("ins",) else
+            sdesc = ";".join("%s@%s%s" % (e[0], _at(c, e), (":" + str(e[2]) if e[0] in ("ins", "rep") else
                                                              (":copy-of-" + c["h"][e[2] - 1] if e[0] == "cpy" else ""))) for e in script) or "none"
             rep.violation({"flavour": c["name"], "role": c["name"].split(":")[1], "script": sdesc, "clause": clause,
                            "observed": "hs=%s post=%s" % (obs["hs"], obs["post"])},
